@@ -606,7 +606,11 @@ where
     }
 
     fn drop_guard(&mut self, i: usize) -> Result<(), String> {
-        {
+        self.drop_guard_(i, false)
+    }
+    /// `force`: the final release of everything (an avoided release would never end)
+    fn drop_guard_(&mut self, i: usize, force: bool) -> Result<(), String> {
+        if !force {
             let g = &self.guards[i];
             if !g.in_debt && g.may_have_slot && g.alloc.is_some() {
                 let (a, st) = (g.alloc, g.strong);
@@ -1033,7 +1037,7 @@ where
     // orderly release: guards, handles, containers (no guard is alive when a container goes, so no
     // cross-class payment can happen here), then the pool; everything must be destroyed exactly once
     while !w.guards.is_empty() {
-        let r = w.drop_guard(w.guards.len() - 1);
+        let r = w.drop_guard_(w.guards.len() - 1, true);
         if result.is_ok() {
             result = r;
         }
